@@ -6,7 +6,7 @@ import numpy as np
 import gens
 from common import Driver, prove, rng
 
-PROP_MODULES = ['PhotVerif.Props.C05']
+PROP_MODULES = ['PhotVerif.Props.C05', 'PhotVerif.Props.C05Relabel']
 DTYPES = {'int32': 2 ** 31 - 1, 'int64': 2 ** 63 - 1, 'uint8': 255, 'uint16': 65535}
 
 
